@@ -144,14 +144,14 @@ pub fn parked<F: FutFl, const KIND: u8, const OUTER: usize>(cap: u64, n: u8, bud
     payload::reset();
     sched::configure(1, budget, sched::MEM_KINDS, 2);
     let mut w = World::<F>::new(cap);
-    set_world::<F>(&mut w);
+    set_world::<F>(&mut *w);
     if KIND == 6 {
         w.rx[1] = Some(F::clone_rx(w.rx[0].as_ref().unwrap()));
     }
     unsafe { CALL_START = [0; 4] };
     if KIND == 8 {
         parked_stream_removed::<F, OUTER>(&mut w);
-        std::mem::forget(w);
+        let _ = &w; // ManuallyDrop: never dropped
         return;
     }
     let sender_parks = KIND == 2 || KIND == 3 || KIND == 5 || KIND == 7;
@@ -245,7 +245,7 @@ pub fn parked<F: FutFl, const KIND: u8, const OUTER: usize>(cap: u64, n: u8, bud
     }
     ledger::check_c01(1, 0);
     ledger::check_c02();
-    std::mem::forget(w);
+    let _ = &w; // ManuallyDrop: never dropped
 }
 
 /// KIND 8 (see above).  N = 1.
@@ -298,7 +298,7 @@ pub fn fut_history<F: FutFl, const DEPTH: usize>(cap: u64, n: u8) {
     sched::configure(0, 0, 0, 0);
     sched::enable(); // points are counted (for the "slept" flag); nothing is injected (depth 0)
     let mut w = World::<F>::new(cap);
-    set_world::<F>(&mut w);
+    set_world::<F>(&mut *w);
     let mut sent: u8 = 0;
     let mut cur: u8 = 0;
     let mut log = [0u8; 12];
@@ -441,7 +441,7 @@ pub fn fut_history<F: FutFl, const DEPTH: usize>(cap: u64, n: u8) {
     kani::cover!(saw_notready_send, "start_send returned NotReady");
     kani::cover!(DEPTH < 7 || saw_notready_poll, "poll returned NotReady");
     kani::cover!(DEPTH < 10 || saw_end, "the stream yielded None");
-    std::mem::forget(w);
+    let _ = &w; // ManuallyDrop: never dropped
 }
 
 // ==========================================================================================
@@ -454,7 +454,7 @@ pub fn uni_add_stream<F: FutFl>(cap: u64) {
     payload::reset();
     sched::configure(0, 0, 0, 0);
     let mut w = World::<F>::new(cap);
-    set_world::<F>(&mut w);
+    set_world::<F>(&mut *w);
     set_task(1);
     let r = w.rx[0].take().unwrap();
     match F::into_single(r) {
@@ -471,7 +471,7 @@ pub fn uni_add_stream<F: FutFl>(cap: u64) {
     kani::cover!(a == Ok(1) && b == Ok(1), "both streams delivered the value");
     // (no teardown here: the destructor path of the futures handles is large, and a value that
     // two streams both moved out is already caught by the payload's liveness checks above)
-    std::mem::forget(w);
+    let _ = &w; // ManuallyDrop: never dropped
 }
 
 // ------------------------------------------------------------------------------------------
